@@ -206,12 +206,117 @@ static void seq_round(long r)
     vrf::res.rounds_done++;
 }
 
+// nested operations: the constructor of an element (user code that the list runs under its write mutex) inserts further
+// elements into the same list, legal with the re-entrant mutex type the class documentation names. The nested operations
+// overlap the outer one, so the outer insertion may take effect before, between or after them: the contents must equal
+// one of those sequential results after every step.
+struct Nest;
+using NestList = gmlc::libguarded::rcu_list<Nest, vrf::recursive_mutex_t>;
+using NestG = gmlc::libguarded::rcu_guarded<NestList>;
+struct Nest {
+    uint32_t id;
+    Nest(uint32_t i, NestG* g, int children, unsigned how): id(i)
+    {
+        for (int c = 0; c < children; c++) {
+            NestG::write_handle h(g->lock_write());
+            uint32_t cid = i * 10 + static_cast<uint32_t>(c) + 1;
+            if ((how >> c) & 1u) h->emplace_front(cid, nullptr, 0, 0u);
+            else h->emplace_back(cid, nullptr, 0, 0u);
+        }
+    }
+};
+static void nested_round(long r)
+{
+    vrf::res.cur_round = r;
+    vrf::Rng rng = vrf::round_rng(r);
+    std::unique_ptr<NestG> g(new NestG());
+    std::set<std::vector<uint32_t>> cands;
+    cands.insert(std::vector<uint32_t>{});
+    std::string prog = "[";
+    uint32_t next = 1;
+    int n = static_cast<int>(rng.range(2, 7));
+    size_t nested_ops = 0;
+    for (int i = 0; i < n; i++) {
+        size_t size_now = cands.begin()->size();
+        if (rng.chance(70) || size_now == 0) {
+            uint32_t id = next++;
+            int children = static_cast<int>(rng.below(3));
+            unsigned how = static_cast<unsigned>(rng.below(4));
+            bool front = rng.chance(50);
+            {
+                NestG::write_handle h(g->lock_write());
+                if (front) h->emplace_front(id, g.get(), children, how);
+                else h->emplace_back(id, g.get(), children, how);
+            }
+            nested_ops += static_cast<size_t>(children);
+            std::set<std::vector<uint32_t>> nextc;
+            for (const auto& c0 : cands)
+                for (int at = 0; at <= children; at++) {
+                    std::vector<uint32_t> c = c0;
+                    for (int k = 0; k <= children; k++) {
+                        if (k == at) {
+                            if (front) c.insert(c.begin(), id);
+                            else c.push_back(id);
+                        }
+                        if (k == children) break;
+                        uint32_t cid = id * 10 + static_cast<uint32_t>(k) + 1;
+                        if ((how >> k) & 1u) c.insert(c.begin(), cid);
+                        else c.push_back(cid);
+                    }
+                    nextc.insert(std::move(c));
+                }
+            cands.swap(nextc);
+            prog += std::string("\"emplace_") + (front ? "front" : "back") + "(" + std::to_string(id) + ", children=" + std::to_string(children) + ", how=" + std::to_string(how) + ")\",";
+        } else {
+            size_t k = rng.below(size_now);
+            uint32_t victim = 0;
+            {
+                NestG::write_handle h(g->lock_write());
+                auto it = h->begin();
+                for (size_t j = 0; j < k && it != h->end(); j++) ++it;
+                if (it != h->end()) {
+                    victim = it->id;
+                    h->erase(it);
+                }
+            }
+            std::set<std::vector<uint32_t>> nextc;
+            for (const auto& c0 : cands) {
+                std::vector<uint32_t> c = c0;
+                c.erase(std::remove(c.begin(), c.end(), victim), c.end());
+                nextc.insert(std::move(c));
+            }
+            cands.swap(nextc);
+            prog += "\"erase(" + std::to_string(victim) + ")\",";
+        }
+        vrf::res.cur_program = "{\"T\":\"nested (constructor re-enters the list), recursive_mutex\",\"ops\":" + prog + "\"...\"]}";
+        std::vector<uint32_t> got;
+        {
+            NestG::read_handle h(g->lock_read());
+            for (auto it = h->begin(); it != h->end(); ++it) got.push_back(it->id);
+        }
+        if (!cands.count(got))
+            vrf::violation("oracle:nested_contents_match_no_sequential_order", "{\"got\":" + vrf::jnums(got) + ",\"one_expected\":" + vrf::jnums(*cands.begin()) + ",\"candidates\":" + std::to_string(cands.size()) + "}");
+        // keep to the branch that was taken: later steps build on what the list really did
+        cands.clear();
+        cands.insert(got);
+    }
+    g.reset();
+    uint64_t sig = 5;
+    for (char c : prog) sig = vrf::mixhash(sig, static_cast<uint64_t>(c));
+    vrf::note(sig, nested_ops > 0);
+    vrf::count("nested_rounds");
+    vrf::count("nested_insertions_from_element_constructors", nested_ops);
+    if (r % 3000 == 3) vrf::sample(vrf::res.cur_program);
+    vrf::res.rounds_done++;
+}
+
 int main(int argc, char** argv)
 {
     vrf::init(argc, argv, "C12");
     for (long r = 0; r < vrf::cfg.rounds; r++) {
         if (!vrf::want_round(r)) continue;
-        if (vrf::cfg.mode == "seq") seq_round(r);
+        if (vrf::cfg.mode == "seq" && r % 4 == 3) nested_round(r);
+        else if (vrf::cfg.mode == "seq") seq_round(r);
         else if (r % 6 == 5) conc_round<UVec>(r);
         else if (r % 3 == 2) conc_round<int>(r);
         else conc_round<vrf::Cell>(r);
